@@ -130,8 +130,25 @@ func runC17(r *Runner, tier string, rng *Rng) {
 				sb.WriteString(c)
 				members = append(members, c)
 			case 2:
-				sb.WriteString("a-c")
-				members = append(members, "b")
+				// a range with ANY two end points: ascending, one character wide, or DESCENDING (empty
+				// by the grammar: lo <= r <= hi has no solution; seeded change
+				// c17-descending-range-wraps), end points escaped or multi-byte; the name candidates
+				// are the end points, a character between them and characters outside on both sides
+				ends := []string{"a", "c", "z", "0", "9", "b", "/", "~", "é", "€", "A"}
+				lo, hi := rng.Pick(ends), rng.Pick(ends)
+				if rng.Chance(40) {
+					lo, hi = "a", "c"
+				}
+				wr := func(e string) {
+					if rng.Chance(15) {
+						sb.WriteString("\\")
+					}
+					sb.WriteString(e)
+				}
+				wr(lo)
+				sb.WriteString("-")
+				wr(hi)
+				members = append(members, lo, hi, "b", "5", "~", "/", "!", "ÿ")
 			default:
 				c := rng.Pick(plain)
 				sb.WriteString(c)
@@ -241,5 +258,5 @@ func runC17(r *Runner, tier string, rng *Rng) {
 		}
 	}
 	flush()
-	r.St.Rule = "exhaustive: every pattern of length <= L over {a b / * ? [ ] ^ - \\ !} against every name of length <= M over {a b / - ] !} (one evaluation = one pattern against the whole name list); grammar-directed: 1-4 items (literal, escape of any metacharacter, * , ?, classes whose members are plain / escaped / in-class-literal metacharacters / ranges, some malformed) with names assembled from per-item candidates; random: patterns of length <= 10 over ASCII + 2/3/4-byte UTF-8 with names derived from the pattern or random. A class is (metacharacter set of the pattern, vector of verdicts); non-trivial = non-empty pattern."
+	r.St.Rule = "exhaustive: every pattern of length <= L over {a b / * ? [ ] ^ - \\ !} against every name of length <= M over {a b / - ] !} (one evaluation = one pattern against the whole name list); grammar-directed: 1-4 items (literal, escape of any metacharacter, * , ?, classes whose members are plain / escaped / in-class-literal metacharacters / ranges with arbitrary end points: ascending, single, descending, escaped, multi-byte; some malformed) with names assembled from per-item candidates; random: patterns of length <= 10 over ASCII + 2/3/4-byte UTF-8 with names derived from the pattern or random. A class is (metacharacter set of the pattern, vector of verdicts); non-trivial = non-empty pattern."
 }
